@@ -182,7 +182,68 @@ func runC19(c *core.Ctx) {
 				}
 			}
 		})
-		if len(uses) != 2 {
+		if len(uses) == 1 && len(uses[0].edge) == 0 && len(uses[0].cl.FreeVars) > 0 {
+			// one comparator parameterised by a captured constant that the direction flag selects
+			// (`wanted := -1; if ascending { wanted = 1 }; … CompareToOrdered(a, b) == wanted`): its truth table under each value
+			cl := uses[0].cl
+			for _, asc := range []bool{true, false} {
+				free := map[string]core.OrdVal{}
+				okFree := true
+				for _, fv := range cl.FreeVars {
+					cell, isCell := capturedCell(so, cl, fv.Name()).(*ssa.Alloc)
+					if !isCell {
+						okFree = false
+						continue
+					}
+					// the store that decides under this direction: the innermost one whose block is not on the other edge
+					var pick *ssa.Store
+					for _, st := range core.Stores(cell) {
+						other := false
+						for _, cnd := range core.EdgeFacts(st.Block()) {
+							n := core.Normalize(cnd)
+							if core.Resolve(n.V) == ssa.Value(so.Params[0]) && n.True != asc {
+								other = true
+							}
+						}
+						if other {
+							continue
+						}
+						if pick == nil || core.InstrDominates(pick, st) {
+							pick = st
+						}
+					}
+					k, isK := (*ssa.Const)(nil), false
+					if pick != nil {
+						k, isK = core.Resolve(pick.Val).(*ssa.Const)
+					}
+					if !isK || k.Value == nil {
+						okFree = false
+						continue
+					}
+					free[fv.Name()] = core.OrdVal{Kind: "int", I: k.Int64()}
+				}
+				dir := "ascending"
+				want := [3]bool{true, false, false}
+				if !asc {
+					want, dir = [3]bool{false, false, true}, "descending"
+				}
+				if !okFree {
+					c.Unknown("R2", "SortOrdered/"+dir, p.Pos(cl.Pos()), "cannot tell which value the comparator's captured variable has in this direction")
+					continue
+				}
+				var tbl [3]core.OrdVal
+				okT := true
+				for i, rel := range []int{-1, 0, 1} {
+					tbl[i] = core.EvalOrderWith(p, cl, []core.OrdVal{{Kind: "A"}, {Kind: "B"}}, rel, free)
+					if tbl[i].Kind != "bool" || tbl[i].B != want[i] {
+						okT = false
+					}
+				}
+				c.Check(okT, "R2", "SortOrdered/"+dir, p.Pos(cl.Pos()), fmt.Sprintf("truth table (a<b,a=b,a>b) = (%v,%v,%v)", tbl[0], tbl[1], tbl[2]),
+					fmt.Sprintf("%s comparator has truth table (a<b,a=b,a>b) = (%v,%v,%v), expected (%v,%v,%v): not a strict order in the documented direction", dir, tbl[0], tbl[1], tbl[2], want[0], want[1], want[2]))
+			}
+			uses = nil
+		} else if len(uses) != 2 {
 			c.Unknown("R2", "SortOrdered", p.Pos(so.Pos()), fmt.Sprintf("expected two comparators handed to Sort (ascending / descending), found %d", len(uses)))
 		}
 		for _, u := range uses {
@@ -703,6 +764,12 @@ func c19iteration(p *core.Prog, f *ssa.Function) (bool, string) {
 			}
 		}
 	}
+	if !tie {
+		// path form: the verdict of this descriptor is not one variable tested once - every comparison made in the
+		// iteration must be found equal to 0 on the way to the next iteration (the other ways there compare nothing:
+		// both keys missing)
+		tie = c19tieOnEveryPath(p, f, pred)
+	}
 	if !tie || !hasNext {
 		return false, fmt.Sprintf("the next descriptor is consulted without result == 0 (tie=%v) && hasNext (%v)", tie, hasNext)
 	}
@@ -1028,4 +1095,82 @@ func c19forwardsToSort(g, sortFn *ssa.Function) bool {
 		return 1
 	}, nil)
 	return ok && min == 1 && max == 1
+}
+
+// c19tieOnEveryPath: every path from a CompareTo call of f to block back (the source of the loop's back edge) crosses
+// a branch edge on which a value that can be that call's result is known to be 0.
+func c19tieOnEveryPath(p *core.Prog, f *ssa.Function, back *ssa.BasicBlock) bool {
+	var cmps []*ssa.Call
+	core.Instrs(f, func(ins ssa.Instruction) {
+		if call, ok := ins.(*ssa.Call); ok && call.Call.IsInvoke() && call.Call.Method.Name() == "CompareTo" {
+			cmps = append(cmps, call)
+		}
+	})
+	if len(cmps) == 0 {
+		return false
+	}
+	for _, cc := range cmps {
+		isResult := func(v ssa.Value) bool {
+			for _, lf := range core.Origins(p, v, nil) {
+				if lf.Val == ssa.Value(cc) {
+					return true
+				}
+			}
+			return false
+		}
+		seen := map[*ssa.BasicBlock]bool{}
+		bad := false
+		var walk func(b *ssa.BasicBlock)
+		walk = func(b *ssa.BasicBlock) {
+			if seen[b] || bad {
+				return
+			}
+			seen[b] = true
+			if b == back && b != cc.Block() {
+				bad = true
+				return
+			}
+			for _, s2 := range b.Succs {
+				// the back edge itself ends the iteration
+				if b == back && s2.Dominates(b) {
+					bad = true
+					return
+				}
+				zero := false
+				if iff, isIf := b.Instrs[len(b.Instrs)-1].(*ssa.If); isIf && len(b.Succs) == 2 && b.Succs[0] != b.Succs[1] {
+					for _, cnd := range core.ExpandCond(core.Cond{V: iff.Cond, True: b.Succs[0] == s2, If: iff}) {
+						if m, isM := core.AsCmp(cnd); isM && m.Op == token.EQL && core.IsIntConst(m.Y, 0) && isResult(m.X) {
+							zero = true
+						}
+					}
+				}
+				if !zero {
+					walk(s2)
+				}
+			}
+		}
+		walk(cc.Block())
+		if bad {
+			return false
+		}
+	}
+	return true
+}
+
+// capturedCell: the value bound, in parent, to the free variable name of closure cl (the cell itself for a variable
+// captured by reference).
+func capturedCell(parent, cl *ssa.Function, name string) ssa.Value {
+	var out ssa.Value
+	core.Instrs(parent, func(ins ssa.Instruction) {
+		mc, ok := ins.(*ssa.MakeClosure)
+		if !ok || mc.Fn != ssa.Value(cl) {
+			return
+		}
+		for k, fv := range cl.FreeVars {
+			if fv.Name() == name && k < len(mc.Bindings) {
+				out = mc.Bindings[k]
+			}
+		}
+	})
+	return out
 }
